@@ -89,15 +89,17 @@ Inv == \A i \in Live : LET o == obj[i] IN
 
 \* ---- statistical clause ("Stats" verdict) ---------------------------------------------------
 \* Over n = S * m (item, sketch) pairs - S sketches with independent seeds, m items each - at most a fraction
-\* e^-rows of the over-estimates may exceed relative_error * total weight, in expectation.  PerMille(d) >= 1000 e^-d.
-PerMille(d) == IF d = 1 THEN 368 ELSE IF d = 2 THEN 136 ELSE IF d = 3 THEN 50 ELSE IF d = 4 THEN 19
-               ELSE IF d = 5 THEN 7 ELSE IF d = 6 THEN 3 ELSE 1
+\* e^-rows of the over-estimates may exceed relative_error * total weight, in expectation (configured confidence
+\* 1 - e^-rows: suggest_num_hashes).  Per100k(d) >= 100000 e^-d;  PerMille(d) >= 1000 e^-d (used for the variance).
+Per100k(d) == IF d = 1 THEN 36788 ELSE IF d = 2 THEN 13534 ELSE IF d = 3 THEN 4979 ELSE IF d = 4 THEN 1832
+              ELSE IF d = 5 THEN 674 ELSE IF d = 6 THEN 248 ELSE IF d = 7 THEN 92 ELSE 34
+PerMille(d) == (Per100k(d) + 99) \div 100
 \* K exceedances among S*m trials.  Allowed: expectation + 6 standard errors + slack, the standard error taken for
 \* fully correlated indicators inside one sketch (m * sqrt(S p (1-p))), so that any seed passes:
 \*   D = K - ceil(n p) - slack <= 0   or   D^2 <= 36 m^2 S p (1 - p)
 Verdict(K, S, m, d, slack) ==
   LET P == PerMille(d)
-      mean == (S * m * P + 999) \div 1000
+      mean == (S * m * Per100k(d) + 99999) \div 100000
       D == IF K > mean + slack THEN K - mean - slack ELSE 0
       var36 == ((m * m * S) * ((36 * P * (1000 - P)) \div 1000)) \div 1000 + 1
   IN D * D <= var36
